@@ -253,7 +253,9 @@ def classify(p):
 
 # ---- pathname expansion -----------------------------------------------------------------------------------
 
-NAMES = ["a", "b", "ab", ".a", ".b", "A", "a b", "[", "*", "d/", "d/.x", "d/y", "c.a", "d/z.x", ".d/", ".d/.x", ".d/y"]
+NAMES = ["a", "b", "ab", ".a", ".b", "A", "a b", "[", "*", "d/", "d/.x", "d/y", "c.a", "d/z.x", ".d/", ".d/.x", ".d/y",
+         # directories whose names are prefixes of one another (the result list is sorted as whole strings: `d x/y` before `d.e/y` before `d/y`)
+         "d.e/", "d.e/y", "d x/", "d x/y", "da/", "da/y"]
 GLOBS = ["*", "?", "a*", "*b", "[ab]", "[!a]*", ".*", ".?", "*/", "*/*", "d/*", "d/.*", "??", "[[]", "\\*", "a?", "[A-Z]", "[a-z]*",
          "*[!b]", "* *", "a\\ b", "'a b'", "\"*\"", "*''", "''*", ".[ab]", "[.]a", "?a", "d*/y", "{a,b}*", "nomatch*", "*/.?", "+(a|b)",
          "@(a|b|ab)", "!(a)", "?(a)b", "*(a)", "d/!(y)", ".!(a)", "[[:alpha:]]", "[[:upper:]]*", "[!.]*", "a*b", "**", "./*", "./.*",
@@ -433,6 +435,8 @@ def run(run):
             subsets.append(list(sub))
     rng.shuffle(subsets)
     subsets = subsets[: int((60 if quick else 1200) * scale)]
+    # always: the whole name set, and the prefix-related directories together (sorting of multi-component results)
+    subsets += [list(NAMES), ["d/", "d/y", "d.e/", "d.e/y", "d x/", "d x/y", "da/", "da/y", "a", "A"]]
     for sub in subsets:
         for opts in (GLOBOPTS if not quick else rng.sample(GLOBOPTS, 3)):
             gjobs.append((sub, GLOBS, opts))
